@@ -412,8 +412,104 @@ def unit_canary():
     return Unit('canary/symmetric-with-edge-repeat', run, kind='canary', expect='refuted')
 
 
+def unit_resize_discr(bl, br, off_kind, grow):
+    """_resize_discr (1 axis, symbolic size / offset / grid): the range partition handed to uniform_partition keeps the cell size of the
+    domain and its grid points are those of the domain shifted by whole cells (num_left cells to the left), for every nodes_on_bdry pair"""
+    DOPS = 'odl.discr.discr_ops:'
+
+    def run(ctx):
+        I = ctx.I
+        import numpy as np
+        from pyvc.objnp import ONd
+
+        def path(st):
+            st.object_arrays = True
+            fr = ip.Frame(st)
+            n, m = S(z3.Int('n')), S(z3.Int('m'))
+            st.assume(n >= 2)
+            st.assume(m >= 1)
+            st.assume(m > n if grow else m < n)
+            g0, h = S(z3.Real('g0')), S(z3.Real('h'))
+            st.assume(h > 0)
+            off = None
+            if off_kind == 'given':
+                off = S(z3.Int('off'))
+                st.assume(off >= 0) if grow else st.assume(off <= 0)
+            calls = []
+
+            class Grid(object):
+                def pv_getattr(self, I_, fr_, name):
+                    if name == 'min':
+                        return ip.Builtin('min', lambda *a: ONd(np.array([g0], dtype=object)))
+                    if name == 'max':
+                        return ip.Builtin('max', lambda *a: ONd(np.array([g0 + (n - 1) * h], dtype=object)))
+                    raise Unsupported('grid.%s' % name)
+
+            class Part(object):
+                def __init__(self, parts=()):
+                    self.parts = list(parts)
+
+                def pv_getattr(self, I_, fr_, name):
+                    if name == 'append':
+                        return ip.Builtin('append', lambda I2, fr2, a, k: Part(self.parts + [a[0]]))
+                    raise Unsupported('partition.%s' % name)
+
+            class Discr(object):
+                def pv_getattr(self, I_, fr_, name):
+                    d = {'ndim': 1, 'dtype': npm.DT('float64'), 'impl': 'numpy', 'exponent': 2.0, 'weighting': None, 'shape': (n,), 'is_uniform_byaxis': (True,),
+                         'grid': Grid(), 'cell_sides': ONd(np.array([h], dtype=object))}
+                    if name in d:
+                        return d[name]
+                    raise Unsupported('discr.%s' % name)
+
+            def upart(I_, fr_, min_pt=None, max_pt=None, shape=None, cell_sides=None, nodes_on_bdry=False, **kw):
+                if isinstance(shape, tuple) and shape == ():
+                    return Part()
+                calls.append(dict(min_pt=min_pt, max_pt=max_pt, shape=shape, nodes_on_bdry=nodes_on_bdry))
+                return ('axis-partition', len(calls) - 1)
+            st.cuts[DOPS + 'uniform_partition'] = upart
+            st.cuts['odl.discr.partition:uniform_partition'] = upart
+            st.cuts[DOPS + 'tensor_space'] = lambda I_, fr_, *a, **k: ('tspace', a, k)
+            st.cuts['odl.space.space_utils:tensor_space'] = lambda I_, fr_, *a, **k: ('tspace', a, k)
+            st.cuts[DOPS + 'DiscretizedSpace.__init__'] = lambda I_, fr_, self, part, tspace, **k: self.fields.update({'part': part, 'tspace': tspace})
+            st.cuts['odl.discr.discr_space:DiscretizedSpace.__init__'] = lambda I_, fr_, self, part, tspace, **k: self.fields.update({'part': part, 'tspace': tspace})
+            from contracts import oplib
+            try:
+                res = I.call(I.get_func(DOPS + '_resize_discr'), [Discr(), (m,), (off,), {'nodes_on_bdry': [(bl, br)]}], {}, fr)
+            except ip.PyRaise as e:
+                return ('raise', e.exc)
+            return ('ok', dict(calls=calls, n=n, m=m, g0=g0, h=h, off=off, res=res))
+        info = {'nodes_on_bdry': (bl, br), 'offset': off_kind, 'grow': grow}
+        for st, (status, r) in ctx.explore(path):
+            if status == 'raise':
+                ctx.fail(st, 'no_raise', 'raises %s' % lib.exc_desc(r), info)
+                continue
+            ctx.prove(st, 'one uniform partition is built for the axis', len(r['calls']) == 1, info)
+            if len(r['calls']) != 1:
+                continue
+            c = r['calls'][0]
+            n, m, g0, h = r['n'], r['m'], r['g0'], r['h']
+            mn, mx = core.S.lift(c['min_pt']), core.S.lift(c['max_pt'])
+            ctx.prove(st, 'new partition: requested number of cells and the nodes_on_bdry pair of the caller', core.sc_eq(core.S.lift(c['shape']), m) if not isinstance(c['shape'], bool) else False, info)
+            nb = c['nodes_on_bdry']
+            ctx.prove(st, 'new partition: nodes_on_bdry handed on', tuple(nb) == (bl, br) if isinstance(nb, (tuple, list)) else False, dict(info, got=repr(nb)))
+            # contract of uniform_partition (C14): cell side = (max - min) / (m - (bl + br)/2), first grid point = min + (0 if bl else side/2)
+            denom = m - (0.5 if bl else 0.0) - (0.5 if br else 0.0)
+            ctx.prove(st, 'cell size is preserved  (max_pt - min_pt) == h * (m - (bl + br)/2)', core.sc_eq(mx - mn, h * denom), info)
+            n_diff = m - n
+            num_l = r['off'] if r['off'] is not None else n_diff - n_diff // 2
+            first = mn + (0.0 if bl else 0.5) * h
+            ctx.prove(st, 'grid points are the old ones shifted by whole cells  (first new node == g0 - num_left * h)', core.sc_eq(first, g0 - num_l * h), info)
+    return Unit('resize_discr/bdry=%s%s/offset=%s/%s' % (int(bl), int(br), off_kind, 'grow' if grow else 'shrink'), run, funcs=['odl.discr.discr_ops:_resize_discr'],
+                config={'nodes_on_bdry': [bl, br], 'offset': off_kind, 'grow': grow})
+
+
 def units(tier, seed):
     us = []
+    for bl, br in ((False, False), (True, True), (True, False), (False, True)):
+        for ok in ('none', 'given'):
+            for grow in (True, False):
+                us.append(unit_resize_discr(bl, br, ok, grow))
     for mode in MODES:
         for kind in ('grow', 'shrink', 'same'):
             us.append(unit_forward_1d(mode, kind))
